@@ -282,12 +282,14 @@ REV_PROGS = ['x*x', 'x/(1+x*x)', 'exp', 'buffer', 'dot(mat,mat)', 'dot(mat,vec)'
 
 def units(tier, seed):
     out = []
-    D, P = (3, 2) if tier == 'quick' else (5, 3)
-    for op in O.catalogue():
-        if 'c14only' in op.tags:
-            continue
-        out.append(Unit('C11/%s/D%d,P%d' % (op.name, D, P), 'symx.props.c11', 'h_op',
-                        {'opname': op.name, 'D': D, 'P': P}, {'property': PROP, 'path_budget': 300}))
+    for (D, P) in ([(3, 2)] if tier == 'quick' else [(5, 3), (8, 2), (3, 5)]):
+        for op in O.catalogue():
+            if 'c14only' in op.tags:
+                continue
+            if P >= 5 and op.group == 'kink':
+                continue      # (one branch per element and direction: 2^10 .. 3^10 paths)
+            out.append(Unit('C11/%s/D%d,P%d' % (op.name, D, P), 'symx.props.c11', 'h_op',
+                            {'opname': op.name, 'D': D, 'P': P}, {'property': PROP, 'path_budget': 300}))
     for pn in ['x*x[::-1]', 'x[1:]*x[:-1]', 'exp(dot)']:
         out.append(Unit('C11/jacobian(Taylor argument)/%s/D2,P2' % pn, 'symx.props.c11', 'h_jacobian_dirs', {'pname': pn, 'D': 2, 'P': 2},
                         {'property': PROP}))
@@ -302,4 +304,7 @@ def units(tier, seed):
     for pn in REV_PROGS:
         out.append(Unit('C11/reverse/%s/D2,P2' % pn, 'symx.props.c11', 'h_reverse', {'pname': pn, 'D': 2, 'P': 2},
                         {'property': PROP, 'path_budget': 300, 'float_tol': 1e-6}))
+        if tier != 'quick' and pn != 'absolute':
+            out.append(Unit('C11/reverse/%s/D3,P3' % pn, 'symx.props.c11', 'h_reverse', {'pname': pn, 'D': 3, 'P': 3},
+                            {'property': PROP, 'path_budget': 300, 'float_tol': 1e-6}))
     return out
